@@ -83,14 +83,21 @@ def gen_offsets(headers, outdir, extra=()):
                 seen.add(al)
                 c.append('struct %s;' % al)
                 for ty, fld, cty, isarr in fields:
-                    ct = cty or CTYPE.get(ty)
+                    ct = re.sub(r'\s*ifdef=\w+', '', cty or '') or CTYPE.get(ty)
                     if ty == 'T *':
                         ct = (tsub + ' *') if tsub else None
                     if ty == 'T':
                         ct = tsub or None
                     if ct is None:
                         ct = ty  # hope it is a C type
+                    fg = re.search(r'ifdef=(\w+)', cty or '')
+                    if fg:
+                        cty = re.sub(r'\s*ifdef=\w+', '', cty)
+                        ct = cty or ct
+                        cpp.append('#ifdef %s' % fg.group(1))
                     cpp.append('extern const unsigned long OFF_%s_%s = (unsigned long)&(((%s*)0)->%s);' % (al, fld, cppty, fld))
+                    if fg:
+                        cpp.append('#endif')
                     c.append('extern const unsigned long OFF_%s_%s;' % (al, fld))
                     if isarr:
                         c.append('#define %s_%s(p) ((%s*)((char*)(p) + OFF_%s_%s))' % (al, fld, ct, al, fld))
